@@ -4,7 +4,7 @@ from __future__ import annotations
 ID = "C19"
 BOUNDS = {
     "quick": "key (128 bit), sequence number (48 bit), source/destination address octets, SCF tool-access and system-broadcast bits and every APDU octet symbolic; APDU length n = 0..20 and 29, 30, 45; both algorithms; address type {group, individual} x frame format {STANDARD, LTE_HEE} x TPCI {TDataGroup, TDataBroadcast, TDataTagGroup, TDataIndividual} fully for n <= 2 and two corner combinations for longer APDUs (these fields only enter block 0)",
-    "thorough": "as quick with every n = 0..240",
+    "thorough": "as quick with every n = 0..48 and 61..64, 77 (longer APDUs exceeded the solver budget in a trial run: 384 of 1048 cells inconclusive after 39 minutes)",
 }
 OUTSIDE = "the strength of AES (modelled as an uninterpreted permutation E(key, block)); TDataConnected/control TPCIs (Data Secure point-to-point is not implemented by xknx)"
 ASSUMPTIONS = [
@@ -19,7 +19,7 @@ TPCIS = ["TDataGroup", "TDataBroadcast", "TDataTagGroup", "TDataIndividual"]
 
 
 def jobs(tier, seed):
-    ns = list(range(0, 21)) + [29, 30, 45] if tier == "quick" else list(range(0, 241))
+    ns = list(range(0, 21)) + [29, 30, 45] if tier == "quick" else list(range(0, 49)) + [61, 62, 63, 64, 77]
     out = []
     for n in ns:
         out.append(dict(name=f"n{n}", n=n, cost=n + 5))
